@@ -248,6 +248,11 @@ func (x *Exec) invoke(st *State, fr *Frame, recv Value, cc *ssa.CallCommon, args
 		x.assumed[name] = true
 		return h(c)
 	}
+	// interface implemented by a repository type: use that implementation's contract
+	if ct, fn := x.repoImplContract(lastSeg(ifaceName), cc.Method.Name()); ct != nil && fn != nil && fn != x.top {
+		cc2 := &CallCtx{x: x, st: st, fr: fr, instr: instr, cc: cc, name: ct.Key(), args: c.args, fn: fn}
+		return x.applyContract(cc2, ct)
+	}
 	// short name fallback: Interface.Method without package
 	short := lastSeg(ifaceName) + "." + cc.Method.Name()
 	if h, ok := intrinsics[short]; ok {
@@ -598,6 +603,16 @@ func (x *Exec) applyContract(c *CallCtx, ct *Contract) []Outcome {
 		x.addObl("call.pre", fn.Name()+"."+cl.Tag+"@"+x.pos(c.instr.Pos()), cl.Text, st, sv.T, cl.Props)
 		st.Assume(sv.T)
 	}
+	// definitional / environmental assumptions of the callee hold at the call site as well (not obligations)
+	for _, cl := range ct.Of("assumes") {
+		sv, err := EvalSpec(cl.node, env, x.sigs, bound)
+		if err != nil {
+			x.fail("contract %s assumes: %v", ct.Key(), err)
+			return nil
+		}
+		st.Assume(sv.T)
+		x.assumed["assumption of "+ct.Func+": "+cl.Text] = true
+	}
 	// havoc assigned ghost state
 	assigned := map[string]bool{}
 	for _, cl := range ct.Of("assigns") {
@@ -637,6 +652,7 @@ func (x *Exec) applyContract(c *CallCtx, ct *Contract) []Outcome {
 		results["r"] = vals[0]
 	}
 	env.results = results
+	st.calls = append(st.calls, CallRec{Name: ct.Func, Args: append([]Value(nil), c.args...), Rets: append([]Value(nil), vals...)})
 	if ct.Func == "FinalizeTokenDeposit" {
 		st.depositCalls++
 		if ev, ok := results["err"]; ok {
@@ -644,6 +660,12 @@ func (x *Exec) applyContract(c *CallCtx, ct *Contract) []Outcome {
 		}
 	}
 	for _, cl := range ct.Of("ensures") {
+		if strings.Contains(cl.Text, "$called(") || strings.Contains(cl.Text, "$arg(") || strings.Contains(cl.Text, "$ret(") ||
+			strings.Contains(cl.Text, "$hook") || strings.Contains(cl.Text, "$nextCalled") || strings.Contains(cl.Text, "$errFromDeposit") || strings.Contains(cl.Text, "$depositCalls") {
+			// clauses about the callee body's own call structure are checked when the callee is verified;
+			// they say nothing a caller could use
+			continue
+		}
 		sv, err := EvalSpec(cl.node, env, x.sigs, bound)
 		if err != nil {
 			x.fail("contract %s ensures %s: %v", ct.Key(), cl.Tag, err)
@@ -787,6 +809,14 @@ func (c *cenv) Lookup(name string, old bool) (SV, bool) {
 		if v, ok := c.results[name]; ok {
 			return x.toSV(st, v)
 		}
+	}
+	if strings.HasPrefix(name, "g.") {
+		// explicit ghost reference (a module state cell that a local variable shadows)
+		if gi, ok := x.ghostTy[name[2:]]; ok {
+			t := x.ghostGet(st, c.h, name[2:], gi.Sort, gi)
+			return SV{T: t, Ty: gi.ValTy, Opt: gi.Opt, Arr: gi.Arr, Sort: gi.Sort}, true
+		}
+		return SV{}, false
 	}
 	parts := strings.Split(name, ".")
 	if v, ok := names[parts[0]]; ok {
@@ -1043,6 +1073,95 @@ func (c *cenv) TypedUF(name string) ([]types.Type, types.Type, bool) {
 		return []types.Type{types.NewInterfaceType(nil, nil)}, coins, true
 	case "txGas":
 		return []types.Type{types.NewInterfaceType(nil, nil)}, types.Typ[types.Uint64], true
+	case "bondedTokens", "cmtConsPublicKey", "pubKeyFromProto", "sigOK":
+		stp := c.x.L.Prog.ImportedPackage("github.com/cosmos/cosmos-sdk/x/staking/types")
+		cp := c.x.L.Prog.ImportedPackage("github.com/cometbft/cometbft/proto/tendermint/crypto")
+		mp := c.x.L.Prog.ImportedPackage("cosmossdk.io/math")
+		if stp == nil || cp == nil || mp == nil || stp.Type("Validator") == nil || cp.Type("PublicKey") == nil || mp.Type("Int") == nil {
+			return nil, nil, false
+		}
+		val, pk, mint := stp.Type("Validator").Type(), cp.Type("PublicKey").Type(), mp.Type("Int").Type()
+		iface := types.NewInterfaceType(nil, nil)
+		bz := types.NewSlice(types.Typ[types.Uint8])
+		switch name {
+		case "bondedTokens":
+			return []types.Type{val}, mint, true
+		case "cmtConsPublicKey":
+			return []types.Type{val}, pk, true
+		case "pubKeyFromProto":
+			return []types.Type{pk}, iface, true
+		case "sigOK":
+			return []types.Type{iface, bz, bz}, types.Typ[types.Bool], true
+		}
+	case "totalBonded":
+		stp := c.x.L.Prog.ImportedPackage("github.com/cosmos/cosmos-sdk/x/staking/types")
+		mp := c.x.L.Prog.ImportedPackage("cosmossdk.io/math")
+		if stp == nil || mp == nil {
+			return nil, nil, false
+		}
+		return []types.Type{types.NewMap(types.NewSlice(types.Typ[types.Uint8]), stp.Type("Validator").Type())}, mp.Type("Int").Type(), true
+	case "decodeVE":
+		vp := c.x.L.Prog.ImportedPackage("github.com/skip-mev/connect/v2/abci/ve/types")
+		if vp == nil || vp.Type("OracleVoteExtension") == nil {
+			return nil, nil, false
+		}
+		return []types.Type{types.NewSlice(types.Typ[types.Uint8])}, vp.Type("OracleVoteExtension").Type(), true
+	case "decodeExtCommit":
+		ap := c.x.L.Prog.ImportedPackage("github.com/cometbft/cometbft/abci/types")
+		if ap == nil || ap.Type("ExtendedCommitInfo") == nil {
+			return nil, nil, false
+		}
+		return []types.Type{types.NewSlice(types.Typ[types.Uint8])}, ap.Type("ExtendedCommitInfo").Type(), true
+	case "voteSum":
+		// definitional helper of ValidateVoteExtensions' contract: partial sums of counted voting power
+		return []types.Type{types.Typ[types.Int]}, types.Typ[types.Int64], true
 	}
 	return nil, nil, false
+}
+
+// CallInfo exposes the recorded by-contract calls of the current path to postconditions.
+func (c *cenv) CallInfo(kind, fn string, i int) (SV, bool) {
+	var last *CallRec
+	n := 0
+	for k := range c.st.calls {
+		if c.st.calls[k].Name == fn {
+			n++
+			last = &c.st.calls[k]
+		}
+	}
+	switch kind {
+	case "$called":
+		return SV{T: fmt.Sprint(n), Sort: "Int"}, true
+	case "$arg":
+		if last == nil {
+			// no call on this path: an unconstrained value of the right type
+			if ct, f := c.x.findByFunc(fn); ct != nil && f != nil && i < len(f.Params) {
+				return c.x.toSV(c.st, c.x.freshTV("nocall", f.Params[i].Type(), nil))
+			}
+			return SV{}, false
+		}
+		if i < len(last.Args) {
+			return c.x.toSV(c.st, last.Args[i])
+		}
+	case "$ret":
+		if last == nil {
+			if ct, f := c.x.findByFunc(fn); ct != nil && f != nil && i < f.Signature.Results().Len() {
+				return c.x.toSV(c.st, c.x.freshTV("nocall", f.Signature.Results().At(i).Type(), nil))
+			}
+			return SV{}, false
+		}
+		if i < len(last.Rets) {
+			return c.x.toSV(c.st, last.Rets[i])
+		}
+	}
+	return SV{}, false
+}
+
+func (x *Exec) findByFunc(name string) (*Contract, *ssa.Function) {
+	for _, k := range sortedKeys(x.db.ByKey) {
+		if ct := x.db.ByKey[k]; ct.Func == name {
+			return ct, x.L.FindFunc(ct)
+		}
+	}
+	return nil, nil
 }
